@@ -274,7 +274,7 @@ PROPS["C13"] = {
     "quick": [S("TestC13", 30, env={"VERIF_SCALE": "2E4"}, floor=10) for _ in range(3)]
              + [S("TestC13", 12, env={"VERIF_SCALE": "2E4", "VERIF_RACE_BIN": 1}, floor=4, weight=2), S("TestC13", 8, env={"VERIF_SCALE": "2E4", "VERIF_RACE_BIN": 1, "VERIF_WORKERS": 1, "VERIF_MINFILES": 3}, floor=3, weight=2)]
              + [S("TestC13", 1, env={"VERIF_SCALE": "1E6"}, floor=1, weight=3), S("TestC13", 1, env={"VERIF_SCALE": "1E6", "VERIF_WORKERS": 1, "VERIF_MINFILES": 3}, floor=1, weight=2),
-                S("TestC13", 1, env={"VERIF_SCALE": "1E6", "VERIF_WORKERS": 1, "VERIF_MINFILES": 2, "VERIF_RACE_BIN": 1}, floor=1, weight=2)]
+                S("TestC13", 1, env={"VERIF_SCALE": "1E6", "VERIF_WORKERS": 1, "VERIF_MINFILES": 2, "VERIF_MAXFILES": 2, "VERIF_RACE_BIN": 1}, floor=1, weight=2)]
              + [S("TestC13", 2, env={"VERIF_SCALE": "1E8"}, floor=1, weight=2), S("TestC13", 1, env={"VERIF_SCALE": "1E8", "VERIF_WORKERS": 1, "VERIF_MINFILES": 2, "VERIF_RACE_BIN": 1}, floor=1, weight=2),
                 S("TestC13", 1, env={"VERIF_SCALE": "1E8hdr"}, floor=1)],
     "thorough": [S("TestC13", 150, env={"VERIF_SCALE": "2E4"}, floor=50, timeout=3400) for _ in range(4)]
